@@ -66,6 +66,7 @@ def cases(draw, nums=("frac",), mode=None):
     if draw(st.booleans()):
         nodes = draw(st.permutations(nodes))  # the statement does not ask for sorted nodes
     return {"U": U, "p": p, "w": w, "nodes": list(nodes), "Z": Z, "Q": Q, "mode": mode, "dim": dim,
+            "decoy": draw(st.integers(0, 2)) == 0,
             "num": draw(st.sampled_from(list(nums)))}
 
 
@@ -147,6 +148,17 @@ def check(case, out):
             return
         Zf = [lib.point_tuple(z) for z in Z]
     zsnap = [tuple(lib.point_tuple(z)) for z in Z]
+    if case.get("decoy") and call_nodes is not None:
+        # history: another curve on the same knot vector and nodes but other weights is fitted first
+        out.cls("decoy-fit-first")
+        decoy = lib.Curve(list(Ulib))
+        if wl is None:
+            decoy.weights = [lib.conv_val(F(1 + (i % 3), 1 + (i % 2)), num) for i in range(n)]
+        try:
+            decoy.fit_points(Z, call_nodes)
+        except Exception as exc0:
+            if not lib.from_library(exc0):
+                raise
     try:
         curve.fit_points(Z, call_nodes)
     except ZeroDivisionError as exc:
@@ -191,6 +203,7 @@ def function_cases(draw):
     n = len(U) - p - 1
     return {"U": U, "p": p, "w": draw(gen.pos_weights(n)) if draw(st.integers(0, 4)) < 2 else None,
             "Q": draw(gen.ctrlpoints(n, draw(st.sampled_from([0, 0, 2])))),
+            "decoy": draw(st.integers(0, 2)) == 0,
             "num": draw(st.sampled_from(["frac", "frac", "float"]))}
 
 
@@ -219,6 +232,16 @@ def check_function(case, out):
         if exact:
             return v[0] if scalar else np.array(list(v), dtype=object)
         return float(v[0]) if scalar else np.array([float(x) for x in v])
+    if case.get("decoy"):
+        out.cls("decoy-fit-first")
+        decoy = lib.Curve(list(Ulib))
+        if wl is None:
+            decoy.weights = [lib.conv_val(F(1 + (i % 3), 1 + (i % 2)), num) for i in range(n)]
+        try:
+            decoy.fit_function(f)
+        except Exception as exc0:
+            if not lib.from_library(exc0):
+                raise
     try:
         curve.fit_function(f)
     except ZeroDivisionError as exc:
